@@ -11,7 +11,7 @@ RULE = ("every string up to the length bound over alphabets of 1..4 letters (and
         "find_neighbor_pairs_index, calculate_neighbor_numbers, isdist1; nndist_hamming over all 4-letter strings x all reference subsets; "
         "non-trivial = non-empty expected neighbourhood")
 ASSUMPTIONS = ["alphabets of more than 4 letters only through the default 20-letter alphabet on short strings"]
-REQUIRED_CLASSES = {"all": ["empty-string", "homopolymer", "repeated-run", "letter-outside-alphabet", "position-subset", "default-20-letter-alphabet", "nndist-cutoff", "mixed-length-reference", "more-than-255-neighbours", "one-shot-iterator-positions", "neighbourhood-with-repeats"]}
+REQUIRED_CLASSES = {"all": ["empty-string", "homopolymer", "repeated-run", "letter-outside-alphabet", "position-subset", "default-20-letter-alphabet", "nndist-cutoff", "mixed-length-reference", "more-than-255-neighbours", "one-shot-iterator-positions", "neighbourhood-with-repeats", "empty-reference"]}
 MIN_OUTCOMES = 10
 AA = "ACDEFGHIKLMNPQRSTVWY"
 
@@ -186,6 +186,13 @@ def check_case(case, acc):
                 acc.fail("calculate_neighbor_numbers/%s/neighbourhood-with-repeats" % nb, case, {"numbers": exp_n, "pairs": len(exp_pairs)}, {"numbers": r, "pairs": rp})
                 return
             acc.ok()
+            for empty in (set(), frozenset()):       # reference sets (the quantifier says sets; a list reference is not supported by the set algebra)
+                r = acc.call(pyrepseq.calculate_neighbor_numbers, seqs, reference=empty, neighborhood=f)
+                if raised(r) or list(r) != [0] * len(seqs):
+                    acc.fail("calculate_neighbor_numbers/%s/empty-reference" % nb, case, [0] * len(seqs), r, note=type(empty).__name__)
+                    return
+                acc.ok()
+            acc.cls("empty-reference")
             ref = set(fam[::2])
             exp_n = [sum(1 for b in ref if dist(a, b) == 1) for a in seqs]
             r = acc.call(pyrepseq.calculate_neighbor_numbers, seqs, reference=ref, neighborhood=f)
